@@ -17,16 +17,20 @@ structure Ammo (α : Type) where
   tempModifier : α
   usePowderSens : Bool
 
-/-- `calc_powder_sens(other_velocity, other_temperature)`; `none` = ValueError -/
-def calcPowderSens (a : Ammo α) (v1 tF1 : α) : Option α :=
+inductive AmmoErr | value | zeroDiv
+  deriving DecidableEq, Repr
+
+/-- `calc_powder_sens(other_velocity, other_temperature)`; `.value` = ValueError (same velocity or
+    temperature), `.zeroDiv` = ZeroDivisionError (`15 / v0` with a zero baseline velocity) -/
+def calcPowderSens (a : Ammo α) (v1 tF1 : α) : Except AmmoErr α :=
   let v0 := a.mv
   let t0 := celsiusOf a.powderTemp
   let t1 := celsiusOf tF1
   let vDelta := v1 - v0
   let tDelta := t1 - t0
   if (vDelta < 0.0 ∨ 0.0 < vDelta) ∧ (tDelta < 0.0 ∨ 0.0 < tDelta) then
-    some (vDelta / tDelta * (15.0 / v0))
-  else none
+    if v0 < 0.0 ∨ 0.0 < v0 then .ok (vDelta / tDelta * (15.0 / v0)) else .error .zeroDiv
+  else .error .value
 
 /-- `get_velocity_for_temp(current_temp)`: raw m/s of the returned quantity.
     (`15 / v0` with `v0 = 0` raises ZeroDivisionError in Python, caught → 0.) -/
